@@ -143,13 +143,24 @@ func (w *World) isRepoNamed(t types.Type) (*types.Named, bool) {
 }
 
 func typeStr(t types.Type) string {
-	if b, ok := types.Unalias(t).(*types.Basic); ok {
-		switch b.Kind() {
+	t = types.Unalias(t)
+	switch u := t.(type) {
+	case *types.Basic:
+		switch u.Kind() {
 		case types.Uint8:
 			return "uint8"
 		case types.Int32:
 			return "int32"
 		}
+		return u.Name()
+	case *types.Pointer:
+		return "*" + typeStr(u.Elem())
+	case *types.Slice:
+		return "[]" + typeStr(u.Elem())
+	case *types.Array:
+		return fmt.Sprintf("[%d]%s", u.Len(), typeStr(u.Elem()))
+	case *types.Map:
+		return "map[" + typeStr(u.Key()) + "]" + typeStr(u.Elem())
 	}
 	return types.TypeString(t, func(p *types.Package) string { return shortPath(p.Path()) })
 }
@@ -635,6 +646,10 @@ func (w *World) prelude() string {
 (declare-sort SV 0)
 (declare-fun bytes (Int Int) (_ BitVec 8))
 (declare-fun sv (Str) SV)
+(declare-fun strcmp (SV SV) Int)
+(assert (forall ((a SV) (b SV)) (! (= (= (strcmp a b) 0) (= a b)) :pattern ((strcmp a b)))))
+(assert (forall ((a SV) (b SV)) (! (= (< (strcmp a b) 0) (> (strcmp b a) 0)) :pattern ((strcmp a b)))))
+(assert (forall ((a SV) (b SV) (c SV)) (! (=> (and (< (strcmp a b) 0) (< (strcmp b c) 0)) (< (strcmp a c) 0)) :pattern ((strcmp a b) (strcmp b c)))))
 (declare-fun alive0 (Int) Bool)
 (declare-fun aliveA0 (Int) Bool)
 (declare-fun idx (Int Int) Int)
